@@ -31,6 +31,8 @@ import engine
 from exact import Q
 from wire import enc
 import c18_scen
+import c18_flexcols
+import c18_jsonkeys
 
 PID = "C18"
 RULE = ("split: exhaustive grid {-3..3 step 1/2}^3 x places {0,1,2,3} + rounding ties + random rationals; "
@@ -412,6 +414,7 @@ def run_real(case, d):
         return rec["result"]
     cls = None
     orig_step = None
+    fb_restore = None
     ab = case.get("abort")
     import s_backfill                      # tie of the `disconnect` back-fill (feeds the SoC CSV)
     obs["backfill_rec"] = s_backfill.Recorder().start()
@@ -431,6 +434,7 @@ def run_real(case, d):
                 cls.step = step
         simulate.Scenario = Rec
         simulate.calculate_costs = cc_rec
+        fb_restore = c18_flexcols.hook(obs)   # records input and result of every generate_flex_band call
         buf = io.StringIO()
         try:
             with contextlib.redirect_stdout(buf), warnings.catch_warnings():
@@ -450,6 +454,8 @@ def run_real(case, d):
         obs["backfill_rec"].stop()
         simulate.Scenario = scen_mod.Scenario
         simulate.calculate_costs = orig_cc
+        if fb_restore is not None:
+            fb_restore()
         if cls is not None and orig_step is not None:
             cls.step = orig_step
     obs["scenario"] = holder.get("s")
@@ -772,6 +778,13 @@ def eval_run(case):
                     any(v for k, v in fl.items() if k in s.components.batteries) for fl in s.fixedLoads[gc]):
                 active = True
             impl.append(json.dumps(im))
+            # the same report with the flex band computed by the model from generate_flex_band's input
+            report_line = lines[-1]
+            c18_flexcols.add_line(obs, gc, report_line, im, lines, impl, stats)
+            # entries and key order of the results JSON, read from the file
+            res_pth = gc_path(obs["paths"]["res"], gc, n_gc) if on["save_results"] and not report_failed else None
+            c18_jsonkeys.add_line(s, gc, res_pth if res_pth and os.path.exists(res_pth) else None, report_line,
+                                  has_ts, lines, impl, stats, viol)
         # ---------------- global aggregates (scenario.testing)
         if on["testing"] and not report_failed and hasattr(s, "testing"):
             try:
@@ -1369,6 +1382,10 @@ def compare(case, impl, model):
     im = json.loads(impl)
     if "global" in im:
         return compare_global(im["global"], model)
+    if "fb" in im:
+        return c18_flexcols.compare(case, im, model, compare)
+    if "jk" in im:
+        return c18_jsonkeys.compare(im, model)
     secs = model.split(" || ")
     if len(secs) != 5:
         return "model output malformed: %s" % model[:200]
